@@ -278,7 +278,7 @@ pub fn scratch_base() -> PathBuf {
 
 impl Scratch {
     pub fn new(tag: &str) -> std::io::Result<Scratch> {
-        let root = scratch_base().join(format!("avra-verif-{}-{}", tag, std::process::id()));
+        let root = scratch_base().join(format!("avra-verif-{}-{:07}", tag, std::process::id()));
         let _ = std::fs::remove_dir_all(&root);
         std::fs::create_dir_all(&root)?;
         let root = root.canonicalize()?;
